@@ -20,9 +20,10 @@ import numpy
 from sim import lifetimes, observe, worldgen
 from . import common
 
-HISTORY_OPS = ['copy', 'copy_deep', 'copy_module', 'pickle', 'hold_refs', 'hold_refs', 'drop_refs', 'gc', 'touch', 'load', 'key', 'key', 'memory_layout', 'memory_layout']
+HISTORY_OPS = ['copy', 'copy_deep', 'copy_module', 'pickle', 'hold_refs', 'hold_refs', 'drop_refs', 'gc', 'touch', 'load', 'key', 'key', 'memory_layout', 'memory_layout',
+               'print_options']
 NONGEOM_EDITS = ['add_var', 'drop_var', 'alter_var', 'slice_time', 'global_attr', 'data_var_attr']
-GEOM_EDITS = ['value', 'dtype_same_bytes', 'shape_same_bytes', 'rename', 'attr_add', 'attr_change', 'attr_remove', 'convention']
+GEOM_EDITS = ['value', 'dtype_same_bytes', 'shape_same_bytes', 'rename', 'attr_add', 'attr_change', 'attr_remove', 'convention', 'attr_array']
 
 
 class KeySim:
@@ -63,11 +64,28 @@ class KeySim:
             for e in v['extra']:
                 if e[0] == world['time']['dim']:
                     e[1] = world['time']['n']
+        world['array_attrs'] = rng.random() < 0.3
+        is_big = rng.random() < (0.02 if not big else 0.01)
+        if is_big:
+            # a geometry of more than a mebibyte per coordinate variable (anything that treats large or lazily loaded
+            # arrays differently from small in-memory ones): one small variable, no bounds, given by a formula
+            world = worldgen.gen_world(rng, convs=['cf2d'], max_n=3, max_vars=1, with_time=True, allow_perm=False,
+                                       materialise='memory', allow_holes=False, allow_coords_as_vars=False)
+            world['time']['n'] = 2
+            world['time']['values'] = [10, 11]
+            world.update({'ny': rng.randint(361, 380), 'nx': rng.randint(365, 390), 'bounds': False, 'bounds_as_coords': False, 'holes': [],
+                          'corners': {'x0': round(rng.uniform(100, 140), 6), 'y0': round(rng.uniform(-40, -20), 6),
+                                      'dx': 0.0101, 'dy': 0.0097, 'skew': round(rng.uniform(0.01, 0.2), 4)},
+                          'file_fill_style': None, 'array_attrs': False})
+            world['vars'] = world['vars'][:1]
+            world['vars'][0].update({'kind': 'face', 'extra': [], 'dtype': 'f4', 'fill': None, 'fillv': None, 'pack': None, 'missing_frac': 0, 'perm': None})
         mats = rng.choice([['memory'], ['file'], ['memory', 'file'], ['file', 'file2'], ['file', 'mf'], ['memory', 'file', 'mf'],
                            ['file', 'chunk1'], ['file', 'chunk2', 'chunk_all'], ['chunk1', 'mf']])
+        if is_big:
+            mats = rng.choice([['file'], ['file', 'chunk_all'], ['memory', 'file']])
         ops = []
         n_handles = len(mats)
-        for _ in range(rng.randint(4, 12)):
+        for _ in range(rng.randint(4, 12) if not is_big else rng.randint(3, 6)):
             r = rng.random()
             if r < 0.55:
                 kind = rng.choice(HISTORY_OPS)
@@ -208,6 +226,10 @@ class KeySim:
         out.signature = (plan['world']['conv'], tuple(plan['mats']), tuple(o['op'] for o in plan['ops']), bool(plan['fresh_hashseeds']))
         out.nontrivial = {'C16': nontrivial}
         out.stats['runs'] += 1
+        if isinstance(plan['world'].get('corners'), dict):
+            out.stats['probe.geometry_variables_over_1MiB'] += 1
+        if plan['world'].get('array_attrs'):
+            out.stats['probe.array_valued_geometry_attributes'] += 1
         out.stats['key_events'] += len(keys)
         out.stats[f'conv.{plan["world"]["conv"]}'] += 1
 
@@ -371,6 +393,9 @@ def _key_lifetime(ctx, plan, scratch):
                     pass
             elif kind == 'load':
                 ds.load()
+            elif kind == 'print_options':
+                # process-wide presentation state: how numpy *prints* arrays has nothing to do with the geometry
+                numpy.set_printoptions(precision=1 + arg % 5, threshold=3 + arg % 4, edgeitems=1, suppress=bool(arg % 2))
             elif kind == 'memory_layout':
                 # the same values, dtype and shape held in another memory layout (Fortran order, as after a transpose,
                 # f2py or loadmat): nothing about the geometry changed
@@ -435,7 +460,8 @@ def _key_lifetime(ctx, plan, scratch):
                     cands = [n for n in gv if new[n].size > 0 and new[n].ndim > 0]
                     name = cands[arg % len(cands)]
                     vals = numpy.array(new[name].values, order='C')
-                    pos = arg % vals.size
+                    # early and late positions alike (the last rows of a large array are as much geometry as the first)
+                    pos = arg % vals.size if arg % 2 == 0 else vals.size - 1 - (arg // 2) % min(vals.size, 5)
                     if vals.dtype.kind == 'f':
                         vals.flat[pos] = 12345.678 if not (vals.flat[pos] == 12345.678) else 0.5
                     else:
@@ -513,6 +539,17 @@ def _key_lifetime(ctx, plan, scratch):
                     # ordinary and underscore-prefixed names alike: every attribute of a geometry variable is geometry
                     aname = ['comment', 'note', '_CoordinateAxisType', '_ChunkSizes', 'valid_min'][arg % 5]
                     new[name].attrs[aname] = f'v{arg}' if aname != 'valid_min' else float(arg)
+                elif kind == 'attr_array':
+                    # an array-valued attribute: added, or (if present) one element changed in its 11th significant digit
+                    cur_ = new[name].attrs.get('valid_range')
+                    if isinstance(cur_, numpy.ndarray) and cur_.size:
+                        arr_ = numpy.array(cur_, dtype='float64', copy=True)
+                        arr_[arg % arr_.size] = arr_[arg % arr_.size] * (1 + 1e-11) + 1e-13
+                        new[name].attrs['valid_range'] = arr_
+                        edit = 'attr_change'
+                    else:
+                        new[name].attrs['valid_range'] = numpy.array([float(arg) - 1000.5, float(arg) + 0.25])
+                        edit = 'attr_add'
                 elif kind == 'attr_change':
                     keys = sorted(k_ for k_, v_ in new[name].attrs.items() if k_ == 'long_name')
                     if keys:
